@@ -110,6 +110,220 @@ def check(run, P):
         raise AnalysisError("C15 positive control failed: taint engine is broken")
 
     _globals(run, P)
+    _carried(run, P, T)
+    _memoised(run, P)
+
+
+# {{{ order-dependent decisions inside unordered loops
+
+# (function, accumulator) -> reason.  Read and found harmless; NOT a suppression
+# of a finding: the decision taken on the accumulated state does not reach any
+# result.
+REVIEWED_CARRIED = {
+    ("dagrt.codegen.analysis.verify_single_definition_cond_rule", "cond_variables"):
+        "'if varname not in cond_variables: cond_variables[varname] = []' is the "
+        "setdefault idiom: it creates the bucket on first sight; the buckets' "
+        "contents are only counted afterwards (a verification pass that emits "
+        "nothing and returns nothing)",
+}
+
+_ACC_MUTATORS = {"append", "extend", "insert", "update", "add", "pop", "popitem",
+                 "clear", "setdefault", "remove", "discard", "appendleft"}
+
+
+def _loop_accumulators(lp):
+    acc = set()
+    for s in lp.body:
+        for n in ast.walk(s):
+            if isinstance(n, ast.AugAssign):
+                d = dotted(n.target) or (dotted(n.target.value)
+                                         if isinstance(n.target, ast.Subscript) else None)
+                if d:
+                    acc.add(d)
+            elif isinstance(n, ast.Assign):
+                for t in n.targets:
+                    if isinstance(t, ast.Subscript) and dotted(t.value):
+                        acc.add(dotted(t.value))
+            elif isinstance(n, ast.Call) and isinstance(n.func, ast.Attribute) \
+                    and n.func.attr in _ACC_MUTATORS and dotted(n.func.value):
+                acc.add(dotted(n.func.value))
+    return acc
+
+
+def _decisions_on(lp, acc):
+    out = []
+    for s in lp.body:
+        for n in ast.walk(s):
+            tests = []
+            if isinstance(n, (ast.If, ast.While, ast.IfExp, ast.Assert)):
+                tests.append(n.test)
+            if isinstance(n, ast.comprehension):
+                tests += n.ifs
+            for t in tests:
+                for x in ast.walk(t):
+                    d = dotted(x) if isinstance(x, (ast.Name, ast.Attribute)) else None
+                    if d in acc:
+                        out.append((d, t))
+    return out
+
+
+def _carried(run, P, T):
+    run.rule("C15.carried",
+             "a loop over an unordered container (or a statement container) takes no "
+             "decision on state it accumulates itself: what it computes is then the "
+             "same for every iteration order", minimum=5)
+    for f, node, what, sink in T.examined:
+        if not isinstance(node, (ast.For, ast.AsyncFor)):
+            continue
+        acc = _loop_accumulators(node)
+        if not acc:
+            continue
+        dec = _decisions_on(node, acc)
+        names = sorted({d for d, _ in dec})
+        reviewed = [d for d in names if (f.fq, d) in REVIEWED_CARRIED]
+        open_ = [d for d in names if (f.fq, d) not in REVIEWED_CARRIED]
+        for d in reviewed:
+            run.note(f"C15.carried reviewed non-instance {d} in {f.fq}: "
+                     f"{REVIEWED_CARRIED[(f.fq, d)]}")
+        run.ob("C15.carried", f, node, not open_,
+               construct=f"{what}: accumulates {sorted(acc)}"
+                         + (f"; tests {open_} while filling it" if open_ else
+                            (f"; test on {reviewed} reviewed" if reviewed else
+                             "; no test reads them")),
+               why="a test on what earlier iterations have accumulated makes the "
+                   "outcome depend on the iteration order (a single pass that keeps "
+                   "an id unless something seen *so far* needs it computes a different "
+                   "set for every order of the container)")
+
+# }}}
+
+
+# {{{ memoised results shared between callers
+
+_MEMO_DECORATORS = {"lru_cache", "cache", "cached_property", "memoize", "memoize_method",
+                    "memoize_on_first_arg", "memoize_in"}
+_INPLACE = (ast.BitOr, ast.BitAnd, ast.Sub, ast.BitXor, ast.Add)
+
+
+def _memo_decorated(f):
+    for d in getattr(f.node, "decorator_list", []):
+        e = d.func if isinstance(d, ast.Call) else d
+        name = (dotted(e) or "").rsplit(".", 1)[-1]
+        if name in _MEMO_DECORATORS:
+            return name
+    return None
+
+
+def _returns_container(f):
+    """'set' / 'dict' / 'list' if the function returns a container it built."""
+    kinds = set()
+    for r in ast.walk(f.node):
+        if not isinstance(r, ast.Return) or r.value is None:
+            continue
+        v = r.value
+        if isinstance(v, ast.Name):
+            defs = [s.value for s in ast.walk(f.node) if isinstance(s, ast.Assign)
+                    and any(isinstance(t, ast.Name) and t.id == v.id for t in s.targets)]
+            v = defs[0] if defs else v
+        if isinstance(v, (ast.Set, ast.SetComp)) or (isinstance(v, ast.Call) and dotted(v.func) == "set"):
+            kinds.add("set")
+        elif isinstance(v, (ast.Dict, ast.DictComp)) or (isinstance(v, ast.Call) and dotted(v.func) in ("dict", "defaultdict", "OrderedDict")):
+            kinds.add("dict")
+        elif isinstance(v, (ast.List, ast.ListComp)) or (isinstance(v, ast.Call) and dotted(v.func) == "list"):
+            kinds.add("list")
+    return "/".join(sorted(kinds))
+
+
+def _is_property(f):
+    return any((dotted(d) or "") in ("property", "cached_property", "functools.cached_property")
+               for d in getattr(f.node, "decorator_list", []))
+
+
+def _mutations_of(fn_node, name):
+    out = []
+    for n in ast.walk(fn_node):
+        if isinstance(n, ast.Call) and isinstance(n.func, ast.Attribute) \
+                and n.func.attr in MUTATORS and dotted(n.func.value) == name:
+            out.append(n)
+        elif isinstance(n, ast.AugAssign) and dotted(n.target) == name and isinstance(n.op, _INPLACE):
+            out.append(n)
+        elif isinstance(n, (ast.Assign, ast.Delete)):
+            for t in n.targets:
+                if isinstance(t, ast.Subscript) and dotted(t.value) == name:
+                    out.append(n)
+    return out
+
+
+def _memoised(run, P):
+    run.rule("C15.memo",
+             "a memoised function hands every caller the same object: when that object "
+             "is a container, no user mutates it in place (directly, through a local "
+             "alias, or after returning it un-copied)", minimum=2)
+    memo = [(f, _memo_decorated(f)) for f in P.all_funcs() if _memo_decorated(f)]
+    if not memo:
+        raise AnalysisError("C15.memo: no memoised function found (anchor vanished)")
+    for M, deco in sorted(memo, key=lambda x: x[0].fq):
+        kind = _returns_container(M)
+        if not kind:
+            run.ob("C15.memo", M, M.node, True,
+                   construct=f"@{deco} {M.qualname}: result is not a container built here",
+                   why="nothing to mutate")
+            continue
+        # access predicates
+        is_prop = _is_property(M)
+        conduits = [M]
+        seen = {M}
+        offenders = []
+        users = 0
+        while conduits:
+            src = conduits.pop()
+            src_prop = src is M and is_prop
+
+            def is_access(f, e):
+                if src_prop:
+                    return isinstance(e, ast.Attribute) and e.attr == src.name \
+                        and not (isinstance(e.value, ast.Name) and e.value.id in ("stmt", "inst", "statement"))
+                if not isinstance(e, ast.Call):
+                    return False
+                if src.cls is not None:
+                    return isinstance(e.func, ast.Attribute) and e.func.attr == src.name
+                if isinstance(e.func, ast.Name):
+                    return P.resolve_name(f, e.func.id) is src
+                return isinstance(e.func, ast.Attribute) and e.func.attr == src.name \
+                    and P.resolve_expr(f, e.func) is src
+
+            for f in P.all_funcs():
+                if f is src:
+                    continue
+                for n in ast.walk(f.node):
+                    # direct mutation of the access expression
+                    if isinstance(n, ast.Call) and isinstance(n.func, ast.Attribute) \
+                            and n.func.attr in MUTATORS and is_access(f, n.func.value):
+                        offenders.append(f)
+                    if isinstance(n, ast.Assign) and is_access(f, n.value) \
+                            and len(n.targets) == 1 and isinstance(n.targets[0], ast.Name):
+                        users += 1
+                        v = n.targets[0].id
+                        if _mutations_of(f.node, v):
+                            offenders.append(f)
+                        if any(isinstance(r, ast.Return) and dotted(r.value) == v
+                               for r in ast.walk(f.node)) and f not in seen:
+                            seen.add(f)
+                            conduits.append(f)
+                    elif isinstance(n, ast.Return) and n.value is not None and is_access(f, n.value) \
+                            and f not in seen:
+                        seen.add(f)
+                        conduits.append(f)
+        names = sorted({o.qualname for o in offenders})
+        run.ob("C15.memo", M, M.node, not names,
+               construct=f"@{deco} {M.qualname} returns a shared {kind}; "
+                         + (f"mutated in place by {names}" if names else
+                            f"none of its users mutates it"),
+               why="the cache outlives the generator object: a name added to the shared "
+                   "container by one generator (its state-update hooks, say) is seen by "
+                   "every later generator given the same description")
+
+# }}}
 
 
 # {{{ global state
